@@ -25,7 +25,7 @@ def run_drivers(repo, verif, names, outdir, timeout=1500):
         os.makedirs(tgt, exist_ok=True)
         env = dict(os.environ, CARGO_NET_OFFLINE="true", SURREALKV_VERIF_DIR=verif, CARGO_TARGET_DIR=tgt,
                    RUSTFLAGS=(os.environ.get("RUSTFLAGS", "") + " --cfg surrealkv_verif").strip())
-        cmd = ["cargo", "test", "--offline", "--lib", "--", "--nocapture", "--test-threads", "4"] + ["verif_replay::" + n.split("::")[-1] if "::" not in n else n.replace("::", "::verif_replay::", 1) for n in names]
+        cmd = ["cargo", "test", "--offline", "--lib", "--", "--nocapture", "--test-threads", "4"] + ["::".join(n.split("::")[:-1] + ["verif_replay", n.split("::")[-1]]) for n in names]
         t0 = time.time()
         try:
             r = subprocess.run(cmd, cwd=scratch, env=env, capture_output=True, text=True, timeout=timeout)
